@@ -226,7 +226,7 @@ fn builder(doc: &Value) -> Value {
                 let pol = exp["pol"].as_str().unwrap();
                 let do_policy = pol != "block" || (si as u64 % full_probe_every == 0);
                 let mut expect_state_acts: Vec<i64> = vec![1];
-                if do_policy && cap <= 4 {
+                if do_policy && cap <= 16 {
                     probed += 1;
                     for i in 1..=cap {
                         if Dispatcher::dispatch(&store, i).is_err() {
